@@ -65,9 +65,8 @@ impl Family for FStdlib {
     }
     fn case(&self, idx: u64) -> Module {
         let vals = value_alphabet();
-        let v = vals.len() as u64;
         let mut i = idx;
-        let mut ti = i % self.tables();
+        let ti = i % self.tables();
         i /= self.tables();
         let key_style = i % Self::KEY_STYLES;
         i /= Self::KEY_STYLES;
@@ -76,6 +75,47 @@ impl Family for FStdlib {
         let variant = (i % Self::VARIANTS) as usize;
         i /= Self::VARIANTS;
         let path = i;
+        build(&vals, ti, key_style, fname, variant, path)
+    }
+}
+
+/// Truthiness and order at the small end of the reals: tables over {0.0, 1e-20, -3e-17, the
+/// smallest subnormal, 0.1 + 0.2 - 0.3, 2.5}; every non-zero real is truthy however small.
+pub struct FStdlibReals {
+    pub max_entries: u32,
+}
+
+fn tiny_reals() -> Vec<C> {
+    vec![C::Float(0.0), C::Float(1e-20), C::Float(-3e-17), C::Float(f64::from_bits(1)), C::Float(0.1 + 0.2 - 0.3), C::Float(2.5)]
+}
+
+impl FStdlibReals {
+    fn tables(&self) -> u64 {
+        let v = tiny_reals().len() as u64;
+        (0..=self.max_entries).map(|n| v.pow(n)).sum()
+    }
+}
+
+impl Family for FStdlibReals {
+    fn name(&self) -> &'static str {
+        "F-stdlib-reals"
+    }
+    fn len(&self) -> u64 {
+        self.tables() * FUNCTIONS.len() as u64 * 2
+    }
+    fn case(&self, idx: u64) -> Module {
+        let ti = idx % self.tables();
+        let i = idx / self.tables();
+        let fname = FUNCTIONS[(i % FUNCTIONS.len() as u64) as usize];
+        // the value itself / its negation (key functions), the value / the key (callbacks)
+        let variant = if i / FUNCTIONS.len() as u64 == 0 { 0 } else if fname.ends_with("by_key") { 3 } else { 1 };
+        build(&tiny_reals(), ti, 1, fname, variant, 0)
+    }
+}
+
+fn build(vals: &[C], mut ti: u64, key_style: u64, fname: &str, variant: usize, path: u64) -> Module {
+    {
+        let v = vals.len() as u64;
         // decode the table: number of entries, then the values
         let mut n = 0u32;
         while ti >= v.pow(n) {
